@@ -70,7 +70,7 @@ func c18(tier string) int {
 	cov := map[string]any{
 		"evaluations":         r.Decisions + sr.Files + er.Decisions,
 		"distinct_nontrivial": r.Decisions,
-		"rule":                "decision = (file with //go:build expression of depth <= 2 over a 24-tag vocabulary, or depth <= 1 x 15 file-name suffixes, or legacy +build spelling, cgo files, _test files, hidden files, .inc.js files) x each of the 8 subsets of the user tags {t1,t2,linux}, 7 further tag lists (always-on tags repeated by the user, duplicates) and 5 host environments (CGO_ENABLED 1/unset, GOOS/GOARCH set but empty, set to the defaults); every release tag go1.1..go1.30 positive, negated and as a window; .inc.js names with dots, suffixes, hidden, directory, symbolic links; all files live in one directory decided by the real NewBuildContext(...).Import; end-to-end: the gopherjs command built from the tree builds a 140-file package for 10 (tag string, host environment) pairs and the files that registered themselves under Node are compared with the same rule; expected = independent evaluator of the documented rule (go/build/constraint parser + tag table + file-name rule); thorough adds depth-3 expressions over 8 tags and depth-2 x suffix; plus every .go file of 26 real standard-library packages under the js/wasm rule",
+		"rule":                "decision = (file with //go:build expression of depth <= 2 over a 24-tag vocabulary, or depth <= 1 x 15 file-name suffixes, or legacy +build spelling, cgo files, _test files, hidden files, .inc.js files) x each of the 8 subsets of the user tags {t1,t2,linux}, 7 further tag lists (always-on tags repeated by the user, duplicates) and 5 host environments (CGO_ENABLED 1/unset, GOOS/GOARCH set but empty, set to the defaults); every release tag go1.1..go1.30 positive, negated and as a window; .inc.js names with dots, suffixes, hidden, directory, symbolic links; all files live in one directory decided by the real NewBuildContext(...).Import; end-to-end: the gopherjs command built from the tree builds a 140-file package for 10 (tag string, host environment) pairs and the files that registered themselves under Node are compared with the same rule; expected = independent evaluator of the documented rule (go/build/constraint parser + tag table + file-name rule); thorough adds depth-3 expressions over 8 tags and depth-2 x suffix; plus every .go file of 26 real standard-library packages under the js/wasm rule; the end-to-end layer also builds three more packages of the module (used with suffix / constraint files; package clause plus .inc.js only, imported for side effects; all declarations unused), with user tags of every character class (rel.2, a_b, x.y.z, v2.0_beta, 2) and under a module path whose first element is a standard-library directory (unicode/xdemo)",
 		"samples":             samples,
 		"files":               r.Files,
 		"imports":             r.Imports,
